@@ -176,16 +176,37 @@ func ruleC15Tail(p *Prog, r *Res) {
 		}
 	}
 	nInc := 0
+	// a call of a package helper that assigns the field counts like the assignment itself (callee effect summary)
+	fieldWrites, _ := cacheFieldWrites(p)
+	helperWrites := func(n ast.Node, fld *types.Var) *Fn {
+		var hit *Fn
+		inspectShallow(n, func(y ast.Node) bool {
+			if c, ok := y.(*ast.CallExpr); ok && hit == nil {
+				if fn := p.Callee(f.Pkg, c); fn != nil {
+					if g := p.FnOfObj(fn); g != nil && g.Short == "converters" && g != f && fieldWrites[g.Root()][fld] {
+						hit = g
+					}
+				}
+			}
+			return hit == nil
+		})
+		return hit
+	}
 	for _, b := range fl.G.Blocks {
 		for i, n := range b.Nodes {
+			if !within(n, loop.Body) {
+				continue
+			}
 			as, ok := n.(*ast.AssignStmt)
-			if !ok || !within(n, loop.Body) || len(as.Lhs) != 1 || !isFieldOf(info, as.Lhs[0], fsFld) {
+			direct := ok && len(as.Lhs) == 1 && isFieldOf(info, as.Lhs[0], fsFld)
+			isSkipCall := skipPt != nil && n == fl.node(*skipPt)
+			if !direct && (isSkipCall || helperWrites(n, fsFld) == nil) {
 				continue
 			}
 			nInc++
 			key := fmt.Sprintf("NewCacheFile scan: fileSize update #%d", nInc)
 			if skipPt == nil {
-				r.Undecided(rule, key, p.Pos(as), "skipStream call not found")
+				r.Undecided(rule, key, p.Pos(n), "skipStream call not found")
 				continue
 			}
 			// from the loop header the update must not be reachable without passing skipStream
@@ -198,20 +219,32 @@ func ruleC15Tail(p *Prog, r *Res) {
 			res := fl.Reach(hdr, func(m ast.Node) bool { return m == n }, func(m ast.Node) bool { return m == fl.node(*skipPt) })
 			bad := failureReaches(fl, *skipPt, func(m ast.Node) bool { return m == n })
 			_ = i
-			r.Check(!res.Found && !bad, rule, key, p.Pos(as), "after the record was read completely", "the running file size is advanced before the record is known to be complete: when the tail is cut at this record the counted bytes stay in the file as a phantom record header")
+			r.Check(!res.Found && !bad, rule, key, p.Pos(n), "after the record was read completely", "the running file size is advanced before the record is known to be complete: when the tail is cut at this record the counted bytes stay in the file as a phantom record header")
 		}
 	}
 	r.Floor(rule+" fileSize updates in the scan", 2, nInc)
 	// later records win: every complete record is stored unconditionally
 	siFld := p.Field("converters", "cacheFile", "streamInfos")
 	if skipPt != nil {
-		isStore := func(n ast.Node) bool {
-			as, ok := n.(*ast.AssignStmt)
-			if !ok || len(as.Lhs) != 1 {
-				return false
+		directStore := func(inf *types.Info) func(n ast.Node) bool {
+			return func(n ast.Node) bool {
+				as, ok := n.(*ast.AssignStmt)
+				if !ok || len(as.Lhs) != 1 {
+					return false
+				}
+				ix, ok := ast.Unparen(as.Lhs[0]).(*ast.IndexExpr)
+				return ok && isFieldOf(inf, ix.X, siFld)
 			}
-			ix, ok := ast.Unparen(as.Lhs[0]).(*ast.IndexExpr)
-			return ok && isFieldOf(info, ix.X, siFld)
+		}
+		isStore := func(n ast.Node) bool {
+			if directStore(info)(n) {
+				return true
+			}
+			// a helper of the package that stores on every one of its paths
+			if g := helperWrites(n, siFld); g != nil && g.Lit == nil {
+				return !p.Flow(g).MustPass(directStore(g.Pkg.TypesInfo)).Found
+			}
+			return false
 		}
 		b := skipPt.B
 		if len(b.Succs) == 2 {
@@ -451,22 +484,41 @@ func ruleC15Accounting(p *Prog, r *Res) {
 	if f := p.Fn("converters.cacheFile.setData"); f != nil {
 		info := f.Pkg.TypesInfo
 		fl := p.Flow(f)
+		// by role: the writer is the local defined from bufio.NewWriter; the record size is the local stored as
+		// streamInfo.size when the record is indexed
 		var sizeObj, writerObj types.Object
 		inspectShallow(f.Body(), func(x ast.Node) bool {
-			if as, ok := x.(*ast.AssignStmt); ok && as.Tok == token.DEFINE && len(as.Lhs) == 1 {
-				if id, ok := as.Lhs[0].(*ast.Ident); ok {
-					if id.Name == "streamSize" {
-						sizeObj = info.Defs[id]
+			switch s := x.(type) {
+			case *ast.AssignStmt:
+				if s.Tok == token.DEFINE && len(s.Lhs) == 1 && len(s.Rhs) == 1 {
+					if c, ok := s.Rhs[0].(*ast.CallExpr); ok {
+						if fn := p.Callee(f.Pkg, c); fn != nil && (fn.FullName() == "bufio.NewWriter" || fn.FullName() == "bufio.NewWriterSize") {
+							writerObj = identObj(info, s.Lhs[0])
+						}
 					}
-					if id.Name == "writer" {
-						writerObj = info.Defs[id]
+				}
+			case *ast.CompositeLit:
+				if n := namedOf(info.TypeOf(s)); n != nil && n.Obj().Name() == "streamInfo" {
+					for _, el := range s.Elts {
+						if kv, ok := el.(*ast.KeyValueExpr); ok {
+							if k, ok := kv.Key.(*ast.Ident); ok && k.Name == "size" {
+								ast.Inspect(kv.Value, func(y ast.Node) bool {
+									if id, ok := y.(*ast.Ident); ok {
+										if v, isVar := info.Uses[id].(*types.Var); isVar && !v.IsField() && sizeObj == nil {
+											sizeObj = v
+										}
+									}
+									return true
+								})
+							}
+						}
 					}
 				}
 			}
 			return true
 		})
 		if sizeObj == nil || writerObj == nil {
-			p.anchorFail("locals streamSize/writer in converters.cacheFile.setData")
+			p.anchorFail("record size local (stored as streamInfo.size) / bufio writer local in converters.cacheFile.setData")
 			return
 		}
 		isEmit := func(n ast.Node) bool {
@@ -531,17 +583,25 @@ func ruleC15Accounting(p *Prog, r *Res) {
 	if f := p.Fn("converters.skipStream"); f != nil {
 		info := f.Pkg.TypesInfo
 		fl := p.Flow(f)
+		// by role: the local that the successful return hands back as the skipped size
 		var sizeObj types.Object
 		inspectShallow(f.Body(), func(x ast.Node) bool {
-			if as, ok := x.(*ast.AssignStmt); ok && as.Tok == token.DEFINE {
-				for _, l := range as.Lhs {
-					if id, ok := l.(*ast.Ident); ok && id.Name == "streamSize" {
-						sizeObj = info.Defs[id]
+			if ret, ok := x.(*ast.ReturnStmt); ok && len(ret.Results) >= 1 && !isFailingReturn(info, ret) {
+				ast.Inspect(ret.Results[0], func(y ast.Node) bool {
+					if id, ok := y.(*ast.Ident); ok {
+						if v, isVar := info.Uses[id].(*types.Var); isVar && !v.IsField() {
+							sizeObj = v
+						}
 					}
-				}
+					return true
+				})
 			}
 			return true
 		})
+		if sizeObj == nil {
+			p.anchorFail("local returned as the skipped size in converters.skipStream")
+			return
+		}
 		isRead := func(n ast.Node) bool {
 			return nodeCalls(p, f, n, func(fn *types.Func, _ *ast.CallExpr) bool {
 				switch fn.Name() {
